@@ -3,7 +3,9 @@
 //! Header: `max=<n>` `wait=<ms>|max` `pre=reject` `post=reject` (builder setter order), `preset=small|medium|large`
 //! (the layer is built through `BulkheadLayer::small()/medium()/large()`, customised afterwards by whatever else the
 //! header gives), `ctor=new|default` (`BulkheadConfigBuilder::new()/default()` instead of `BulkheadLayer::builder()`),
-//! `name=<s>` (`.name(s)`).
+//! `name=<s>` (`.name(s)`), `unit=us` (`wait=` is in microseconds: waits with a sub-millisecond part).
+//! `manual onpoll c=<p> by=<c2> <arrive words>` (world.rs, through `requester()`): a request made by the wrapped service
+//! itself, from inside the poll of the admitted call p, through a clone of the same bulkhead.
 //!
 //! ONE layer value is built per case. `arrive <c> svc=<k>` goes through service k (default 0): service k is built
 //! lazily, from the layer value the adapter holds at that moment (odd k: from a clone of it, dropped afterwards),
@@ -60,8 +62,10 @@ fn build_layer(kv: &Kv) -> BulkheadLayer {
     }
     if kv.get("wait") == Some("max") {
         b = b.max_wait_duration(Duration::MAX);
-    } else if let Some(ms) = kv.opt_u64("wait") {
-        b = b.max_wait_duration(Duration::from_millis(ms));
+    } else if let Some(w) = kv.opt_u64("wait") {
+        // `unit=us`: the wait is given in microseconds (it need not be a whole number of milliseconds); the op clock
+        // stays in milliseconds — tokio's timer fires at the first millisecond boundary at or after the deadline
+        b = b.max_wait_duration(if kv.get("unit") == Some("us") { Duration::from_micros(w) } else { Duration::from_millis(w) });
     }
     if kv.get("post") == Some("reject") {
         b = b.reject_when_full();
@@ -270,7 +274,8 @@ impl Mw for Adapter {
     fn arrive(&mut self, c: usize, kv: &Kv) -> Option<CallFut> {
         self.core.borrow_mut().arrive(c, kv)
     }
-    /// a request made from inside a destructor (`manual ondrop`): the same paths as `arrive`
+    /// a request made from inside a destructor (`manual ondrop`) or from inside the poll of an admitted call
+    /// (`manual onpoll`): the same paths as `arrive`
     fn requester(&self) -> Option<Requester> {
         if self.core.borrow().gone {
             return None;
